@@ -17,6 +17,7 @@ from contracts import records, outgoing_model
 
 PROP = 'C01'
 BOUNDED_IN_QUICK = True
+LEVEL = 'other'          # the statement itself (round trip) is only bounded-checked; the proved part is the kernel of primitive value contracts
 ASSUMPTIONS = ['T3-struct: struct packers as big-endian encoders of fixed width',
                'str.encode("utf-8") length is ulen (A2: no lone surrogates)',
                'the round trip itself is bounded-checked only (see bounded_checks)']
@@ -116,7 +117,7 @@ def bounded_checks(run, tier, seed):
             return ('q', r.name, r.type, r.class_, r.unique)
         return ('r', r.name, r.type, r.class_, r.unique, r.ttl, repr(r))
 
-    def check(entries, flags, multicast, ident):
+    def check(entries, flags, multicast, ident, adds=()):
         nonlocal n
         n += 1
         out = DNSOutgoing(flags, multicast, ident)
@@ -125,11 +126,13 @@ def bounded_checks(run, tier, seed):
                 out.add_question(r)
             else:
                 out.add_answer_at_time(r, 0)
+        for r in adds:
+            out.add_additional_answer(r)
         try:
             pkts = out.packets()
         except NamePartTooLongException:
             return
-        gq, gr = [], []
+        gq, gr, gadd = [], [], []
         for p in pkts:
             if len(p) > 8966:
                 viol.setdefault('oversize', {'signature': 'oversize', 'entries': [repr(e[1]) for e in entries][:6]})
@@ -138,7 +141,9 @@ def bounded_checks(run, tier, seed):
                 viol.setdefault('own-decoder-rejects', {'signature': 'own-decoder-rejects', 'entries': [repr(e[1]) for e in entries][:6]})
                 return
             gq += [('q', q.name, q.type, q.class_, q.unique and multicast or (q.unique and not multicast and False)) for q in m.questions]
-            gr += m.answers()
+            recs = m.answers()
+            gr += recs[:m.num_answers + m.num_authorities]
+            gadd += recs[m.num_answers + m.num_authorities:]
             try:
                 sq, sr = c02.strict_parse(p)
             except c02.Reject:
@@ -147,7 +152,8 @@ def bounded_checks(run, tier, seed):
             if [(a, b) for a, b, c in sq] != [(q.name, q.type) for q in m.questions]:
                 viol.setdefault('strict-parser-differs', {'signature': 'strict-parser-differs', 'entries': [repr(e[1]) for e in entries][:6]})
         wq = [e[1] for e in entries if e[0] == 'q']
-        wr = [e[1] for e in entries if e[0] == 'r']
+        wr = [e[1] for e in entries if e[0] == 'r'] + list(adds)
+        gr = gr + gadd               # sections compared in order: answers of all datagrams, then additionals
         okq = [(q.name, q.type, q.class_) for q in wq] == [(x[1], x[2], x[3]) for x in gq]
         okr = len(gr) == len(wr) and all(a == b and a.name == b.name and a.ttl == b.ttl and (a.unique == (b.unique and multicast)) for a, b in zip(gr, wr))
         if not (okq and okr):
@@ -176,8 +182,19 @@ def bounded_checks(run, tier, seed):
     # many records: splitting keeps order and loses nothing
     many = [('r', DNSPointer('_x._tcp.local.', const._TYPE_PTR, const._CLASS_IN, 4500, 'i%03d._x._tcp.local.' % k)) for k in range(200)]
     check(many, const._FLAGS_QR_RESPONSE | const._FLAGS_AA, True, 0)
+    # an answer that does not fit is rolled back; a later section of the same datagram then names the rolled-back owner
+    from zeroconf._dns import DNSText, DNSNsec
+    inst = 'Office Laser._ipp._tcp.local.'
+    for big in range(900, 1500, 7 if tier == 'quick' else 1):
+        base = [('r', DNSPointer('_ipp._tcp.local.', const._TYPE_PTR, const._CLASS_IN, 4500, 'Other._ipp._tcp.local.'))]
+        base += [('r', DNSText('Other%d._ipp._tcp.local.' % k, const._TYPE_TXT, const._CLASS_IN | const._CLASS_UNIQUE, 4500, b'\x63' + b'x' * 99)) for k in range(3)]
+        base.append(('r', DNSText(inst, const._TYPE_TXT, const._CLASS_IN | const._CLASS_UNIQUE, 4500, bytes([200]) * big)))
+        check(base, const._FLAGS_QR_RESPONSE | const._FLAGS_AA, True, 0,
+              adds=[DNSPointer('_ipp._tcp.local.', const._TYPE_PTR, const._CLASS_IN, 4500, inst)])
+        check(base, const._FLAGS_QR_RESPONSE | const._FLAGS_AA, True, 0,
+              adds=[DNSNsec(inst, const._TYPE_NSEC, const._CLASS_IN | const._CLASS_UNIQUE, 4500, inst, [16, 33])])
     return {'codec-round-trip-small-scope': {
         'evaluations': n, 'violations': list(viol.values()),
         'bound': 'all ordered selections of <= %d entries out of %d (7 questions over names sharing suffixes in mixed case / with spaces / non-ASCII / 63-byte '
                  'labels, 11 records of all 7 kinds incl. TTL 0 and 2^32-1), as multicast response and as unicast query; 63/64/65-byte labels; 200 '
-                 'pointers (multi-packet); decoded by the library and by the independent strict parser of contracts/c02.py' % (size, len(E))}}
+                 'pointers (multi-packet); TXT answers of 900..1499 bytes rolled back to the next datagram with an additional naming their owner; decoded by the library and by the independent strict parser of contracts/c02.py' % (size, len(E))}}
